@@ -55,12 +55,15 @@ def true_sccs(n, edges):
     return set(comps)
 
 
+GNEW = ["gnew", "gnew", "gnew cap 0", "gnew cap 1", "gnew cap 42", "gnew def"]   # Graph::new / with_capacity / Default
+
+
 def scc_case(name, keys, edges, rng, ncontainers=3):
     n = len(keys)
     steps = ["new %d %d" % (k, 0) for k in keys]
     steps += ["con %d %d %d" % (u, v, 10 + i) for i, (u, v) in enumerate(edges)]
     for gi in range(ncontainers):
-        steps.append("gnew")
+        steps.append(rng.choice(GNEW))
         order = list(range(n))
         if gi == 1:
             order.reverse()
@@ -214,7 +217,7 @@ def gen_container(cls, rng, tier):
     for ci in range(1500 if tier == "thorough" else 120):
         n = rng.randint(3, 6)
         ks = rng.sample(range(1, 60), n)
-        steps = ["new %d %d" % (k, rng.randint(-3, 3)) for k in ks] + ["gnew"] + ["gins 0 %d" % u for u in range(n)]
+        steps = ["new %d %d" % (k, rng.randint(-3, 3)) for k in ks] + [rng.choice(GNEW)] + ["gins 0 %d" % u for u in range(n)]
         for j in range(rng.randint(12, 40)):
             steps.append("con %d %d %d" % (rng.randrange(n), rng.randrange(n), rng.randint(0, 40)))
         for j in range(rng.randint(1, 4)):
@@ -227,7 +230,7 @@ def gen_container(cls, rng, tier):
     for ci in range(2000 if tier == "thorough" else 140):
         n = rng.randint(2, 8) if ci % 3 else rng.randint(9, 28)
         ks = rng.sample(range(1, 60), n)
-        steps = ["new %d %d" % (k, rng.randint(-3, 3)) for k in ks] + ["gnew", "gnew"]
+        steps = ["new %d %d" % (k, rng.randint(-3, 3)) for k in ks] + [rng.choice(GNEW), rng.choice(GNEW)]
         if n > 8:
             # large containers: most nodes are members of graph 0 from the start
             steps += ["gins 0 %d" % u for u in rng.sample(range(n), n - rng.randint(0, 3))]
